@@ -1,0 +1,15 @@
+//go:build verif
+
+package hap
+
+// Contracts for package hap, checked by /verif (govc). Comment-only file: it adds no declarations.
+
+//@ func (w *chunkedWriter) Write(p) (n, err)
+//@   requires w != nil && w.wr != nil
+//@   requires w.chunk > 0 && w.chunk <= 4294967296
+//@   modifies sink(w.wr)
+//@   ensures bounds: 0 <= n && n <= len(p)
+//@   ensures all: err == nil ==> n == len(p)
+//@   loop 0
+//@     invariant nnBounds: 0 <= nn && nn <= len(p)
+//@     decreases len(p) - nn
